@@ -44,7 +44,7 @@ GoodAfter(e) ==
     [] e.a = "Report" -> GoodAfterReport(e.args.w, e.args.l, e.args.e)
     [] e.a = "ReportApply" -> GoodAfterReport(pend[e.args.i].w, pend[e.args.i].l, pend[e.args.i].e)
     [] e.a \in {"Shrink", "Expand"} -> IF Stale(e.args.l, e.args.e) THEN good ELSE GoodAfterISR
-    [] e.a = "ISRApply" -> IF Stale(pend[e.args.i].l, pend[e.args.i].e) /\ e.obs.err = "stale" THEN good ELSE GoodAfterISR
+    [] e.a = "ISRApply" -> GoodAfterISR
     [] e.a \in {"Skip", "ReportCheck", "ISRCheck"} -> good
     [] OTHER -> {}      \* Expire, Lose, Remove
 ArmedAfter(e) ==
